@@ -536,7 +536,7 @@ class dir_archive(archive):
         _dir = self._getdir(key)
         # first hide the directory under a 'temporary' name (atomically), so
         # an entry is never seen while it is only partially removed
-        _tmp = self._getdir(TEMP+hash(random(), 'md5'))
+        _tmp = self._getdir(TEMP+hash((random(), os.getpid()), 'md5'))
         # the hidden name may be left over from a removal or store that was
         # killed (same name drawn again after random.seed): clear it first
         if os.path.isdir(_tmp): shutil.rmtree(_tmp, ignore_errors=True)
@@ -619,7 +619,7 @@ class dir_archive(archive):
         return memo
     def _store(self, key, value, input=False):
         "store output (and possibly input) in a subdirectory"
-        _key = TEMP+hash(random(), 'md5')
+        _key = TEMP+hash((random(), os.getpid()), 'md5') # unique per process
         # create an input file when key is not suitable directory name
         if self._fname(key) != key: input=True #XXX: errors if protocol=0,1?
         # create a temporary directory, and dump the results
@@ -796,7 +796,7 @@ class file_archive(archive):
         """create an archive from the given dictionary"""
         if memo == None: return
         filename = self.__state__['id']
-        _filename = os.path.join(os.path.dirname(os.path.abspath(filename)), TEMP+hash(random(), 'md5'))
+        _filename = os.path.join(os.path.dirname(os.path.abspath(filename)), TEMP+hash((random(), os.getpid()), 'md5'))
         # create a temporary file, and dump the results
         try:
             if self.__state__['serialized']:
